@@ -257,8 +257,8 @@ class VBuf(V):
 
 
 class VStr(V):
-    def __init__(self, s=None, z=None):
-        self.s, self.z = s, z
+    def __init__(self, s=None, z=None, prefix=None):
+        self.s, self.z, self.prefix = s, z, prefix
 
 
 class VNone(V):
@@ -495,6 +495,8 @@ class Exec:
         self.hooks = {}        # (class qualname, attr) -> fn(ex, st, selfobj, args) -> [(st, value)]
         self.safety_names = itertools.count()
         self.spec_depth = 0
+        self.loops = {}            # (function name, loop ordinal) -> {'inv', 'havoc', 'variant'} callables
+        self._loop_ordinals = {}
         self.deadline = time.time() + float(os.environ.get('PYVC_GEN_BUDGET_S', '90'))
 
     # ---------------- solver helpers
@@ -947,6 +949,8 @@ class Exec:
         if isinstance(l, VStr) and isinstance(r, VStr) and isinstance(op, ast.Add) and l.s is not None and r.s is not None \
                 and isinstance(l.s, str) and isinstance(r.s, str):
             return [(st, VStr(s=l.s + r.s))]
+        if isinstance(l, VStr) and isinstance(r, VStr) and isinstance(op, ast.Add) and isinstance(l.s, str):
+            return [(st, VStr(prefix=l.s))]
         if isinstance(l, VObj):
             dn = {ast.BitAnd: '__and__', ast.BitOr: '__or__', ast.Add: '__add__', ast.Sub: '__sub__'}.get(type(op))
             if dn:
@@ -1083,6 +1087,10 @@ class Exec:
         return out
 
     def getattr(self, o, attr, st, ctx, n=None):
+        if attr == '__class__' and isinstance(o, VObj):
+            return [(st, VClass(o.cls))]
+        if attr == '__name__' and isinstance(o, VClass):
+            return [(st, VStr(s=o.qual.split('.')[-1]) if not o.qual.startswith('abstract:') else VStr())]
         if isinstance(o, VObj):
             for c in self.repo.mro(o.cls):
                 if (c, attr) in self.hooks:
@@ -1208,6 +1216,13 @@ class Exec:
             h = hi.conc() if hi else None
             its = self.items(o, st)[l:h]
             return VTuple(its) if isinstance(o, VTuple) else self.new_list(st, its)
+        if isinstance(o, VStr):
+            if isinstance(o.s, str):
+                l = lo.conc() if lo else None
+                h = hi.conc() if hi else None
+                if (lo is None or l is not None) and (hi is None or h is not None):
+                    return VStr(s=o.s[l:h])
+            raise ToolLimit('slice of symbolic str')
         S = self.seq(o, st)
         L = z3.Length(S)
         a = self.norm_idx(lo, L) if lo is not None else z3.IntVal(0)
@@ -1549,6 +1564,24 @@ class Exec:
                 if not (isinstance(A[1], VStr) and isinstance(A[1].s, str)):
                     raise ToolLimit('setattr with non-constant name')
                 return [(s2, c if isinstance(c, Raise) else VNone()) for s2, c in self.setattr(A[0], A[1].s, A[2], st, ctx, n)]
+            if name in ('collections.OrderedDict', 'dict') and not A:
+                return [(st, VDict([]))]
+            if name in ('copy.copy', 'copy.deepcopy'):
+                x = A[0]
+                if isinstance(x, VBuf):
+                    return [(st, self.new_buf(st, st.heap[x.cell]))]
+                if isinstance(x, (VNone, VInt, VBool, VBytes, VStr, VTuple, VExt)):
+                    return [(st, x)]
+                if isinstance(x, VList):
+                    return [(st, self.new_list(st, self.items(x, st)))]
+                if isinstance(x, VDict):
+                    return [(st, VDict(list(x.pairs)))]
+                if isinstance(x, VObj):
+                    for s2, m in self.getattr(x, '__copy__' if name == 'copy.copy' else '__deepcopy__', st, ctx, n):
+                        if isinstance(m, Raise):
+                            raise ToolLimit('copy of %s without __copy__' % x.cls)
+                        return self.call(m, [], {}, s2, ctx, n, env)
+                raise ToolLimit('copy.copy of %s' % type(x).__name__)
             if name == 'collections.namedtuple':
                 fields = [x.s for x in self.items(A[1], st)]
                 return [(st, VBuiltin('namedtuple', bound=('nt', A[0].s, tuple(fields))))]
@@ -1698,6 +1731,12 @@ class Exec:
             if b.s is not None and isinstance(b.s, str):
                 return [(st, VBytes(self.lit_bytes(b.s.encode(A[0].s if A else 'utf-8'))))]
             return [(st, VBytes(b.z))]   # caller-declared: symbolic str modelled as its utf-8 bytes
+        if isinstance(b, VStr) and name in ('startswith', 'endswith') and isinstance(A[0], VStr) and isinstance(A[0].s, str):
+            if isinstance(b.s, str):
+                return [(st, VBool(getattr(b.s, name)(A[0].s)))]
+            if name == 'startswith' and b.prefix is not None and (b.prefix.startswith(A[0].s) or not A[0].s.startswith(b.prefix)):
+                return [(st, VBool(b.prefix.startswith(A[0].s)))]
+            raise ToolLimit('%s on symbolic str' % name)
         if isinstance(b, VStr) and name == 'format':
             return [(st, VStr(s='<fmt>'))]
         if isinstance(b, VStr) and name == 'join' and b.s is not None and False:
@@ -1725,6 +1764,8 @@ class Exec:
                 return [(st, VInt(hashlib.new(b.alg).digest_size))]
         if isinstance(b, VDict) and name == 'values':
             return [(st, VTuple([v for _, v in b.pairs]))]
+        if isinstance(b, VDict) and name == 'copy':
+            return [(st, VDict(list(b.pairs)))]
         if isinstance(b, VDict) and name == 'keys':
             return [(st, VTuple([k for k, _ in b.pairs]))]
         if isinstance(b, VDict) and name == 'items':
@@ -2000,6 +2041,43 @@ class Exec:
             for s, o in self.ev(tgt.value, env, st, ctx):
                 out += self.setattr(o, tgt.attr, v, s, ctx, tgt)
             return out
+        if isinstance(tgt, ast.Subscript) and not isinstance(tgt.slice, ast.Slice):
+            out = []
+            for s, vs in self.ev_many([tgt.value, tgt.slice], env, st, ctx):
+                if isinstance(vs, Raise):
+                    out.append((s, vs))
+                    continue
+                o, k = vs
+                if isinstance(o, VObj):
+                    for s2, m in self.getattr(o, '__setitem__', s, ctx, tgt):
+                        if isinstance(m, Raise):
+                            raise ToolLimit('item assignment on %s' % o.cls)
+                        for s3, r in self.call(m, [k, v], {}, s2, ctx, tgt, env):
+                            out.append((s3, r if isinstance(r, Raise) else Next()))
+                elif isinstance(o, VDict):
+                    hit = False
+                    for i, (kk, _) in enumerate(o.pairs):
+                        if z3.is_true(z3.simplify(self.eq(kk, k, s))):
+                            o.pairs[i] = (kk, v)
+                            hit = True
+                    if not hit:
+                        o.pairs.append((k, v))
+                    out.append((s, Next()))
+                elif isinstance(o, VBuf):
+                    S = s.heap[o.cell]
+                    L = z3.Length(S)
+                    z = self.as_int(k)
+                    for s2, ok in self.fork(s, z3.And(z >= -L, z < L)):
+                        if not ok:
+                            out.append((s2, Raise('IndexError', tgt.lineno)))
+                        else:
+                            i = z3.If(z < 0, z + L, z)
+                            S2 = s2.heap[o.cell]
+                            s2.heap[o.cell] = z3.Concat(z3.Extract(S2, 0, i), z3.Unit(self.as_int(v)), z3.Extract(S2, i + 1, L - i - 1))
+                            out.append((s2, Next()))
+                else:
+                    raise ToolLimit('item assignment on %s' % type(o).__name__)
+            return out
         raise ToolLimit('assign target %s' % type(tgt).__name__)
 
     def setattr(self, o, attr, v, st, ctx, n):
@@ -2137,8 +2215,26 @@ class Exec:
                 out.append((s2, Next() if t else Raise('AssertionError', n.lineno)))
         return out
 
+    def loop_spec(self, ctx, n):
+        """loop contracts are keyed (function name, ordinal of the loop among the function's loops in source order)"""
+        fn = ctx.get('fn')
+        for key, spec in self.loops.items():
+            if key[0] == fn and self._loop_ordinals.get((fn, n.lineno, n.col_offset)) == key[1]:
+                return spec
+        return None
+
+    def register_loops(self, fname, node):
+        """number the loops of a function in source order (called by scenarios that supply loop contracts)"""
+        loops = sorted([x for x in ast.walk(node) if isinstance(x, (ast.For, ast.While))], key=lambda x: (x.lineno, x.col_offset))
+        for i, x in enumerate(loops):
+            self._loop_ordinals[(fname, x.lineno, x.col_offset)] = i
+        return loops
+
     def st_While(self, n, env, st, ctx):
-        # spike: bounded unrolling; if the loop can still run after UNROLL iterations -> tool limit
+        spec = self.loop_spec(ctx, n)
+        if spec is not None:
+            return self.while_invariant(n, env, st, ctx, spec)
+        # no invariant: bounded unrolling; complete if the loop provably ends within UNROLL iterations, else tool limit
         UNROLL = 3
         out = []
         frontier = [(st, Next())]
@@ -2167,6 +2263,48 @@ class Exec:
                 break
         return out
 
+
+    def while_invariant(self, n, env, st, ctx, spec):
+        """inductive loop contract: init / preserve / (variant) obligations; after the loop: havoc + invariant + not cond"""
+        tag = spec.get('name', 'L%d' % n.lineno)
+        self.oblige(st, 'inv-init[%s]' % tag, spec['inv'](self, st, env), n.lineno)
+        if spec.get('at_entry'):
+            self.oblige(st, 'at-entry[%s]' % tag, spec['at_entry'](self, st, env), n.lineno)
+        out = []
+        # arbitrary iteration
+        body = st.clone()
+        spec['havoc'](self, body, env)
+        body.pc.append(spec['inv'](self, body, env))
+        for s1, cond in self.ev(n.test, env, body, ctx):
+            if isinstance(cond, Raise):
+                out.append((s1, cond))
+                continue
+            for s2, t in self.fork(s1, self.truth(cond, s1)):
+                if not t:
+                    continue
+                v0 = spec['variant'](self, s2, env) if spec.get('variant') else None
+                for s3, c3 in self.block(n.body, env, s2, ctx):
+                    if isinstance(c3, (Next, Cont)):
+                        self.oblige(s3, 'inv-preserve[%s]' % tag, spec['inv'](self, s3, env), n.lineno)
+                        if v0 is not None:
+                            v1 = spec['variant'](self, s3, env)
+                            self.oblige(s3, 'variant-decreases[%s]' % tag, z3.And(v0 >= 0, v1 < v0), n.lineno)
+                    elif isinstance(c3, Brk):
+                        out.append((s3, Next()))
+                    else:
+                        out.append((s3, c3))       # return / raise from inside the loop
+        # after the loop
+        after = st.clone()
+        spec['havoc'](self, after, env)
+        after.pc.append(spec['inv'](self, after, env))
+        for s1, cond in self.ev(n.test, env, after, ctx):
+            if isinstance(cond, Raise):
+                out.append((s1, cond))
+                continue
+            for s2, t in self.fork(s1, self.truth(cond, s1)):
+                if not t:
+                    out.append((s2, Next()))
+        return out
 
     # ---- loops over abstract sequences: inductive invariants
     def for_invariant(self, n, it, env, st, ctx):
